@@ -8,7 +8,8 @@
     id <path> | exists <path>
     children <path> | siblings <path>                                         → ok p:Cls,p:Cls / <error>
     parent <path> | ancestor <path> <tag> | by <path>                         → ok p:Cls / <error>
-    clear                                                                     → ok (drops the resolver's instance cache)
+    clear                                                                     → ok (a fresh Nodes: drops the resolver's instance cache and the query memo)
+    ep.<fn> <hex…>                                                            → the EntryPath algebra on arbitrary strings (hex-escaped): valid joined identify first last shift parenttag deidentify elements contains only escaped relativefy
     classof <path>                                                            → cache-free class (never touches the instance cache)
     expand <path>                                                             → ok p:Cls,p:Cls / <error>   (Nodes.expand)
     expandp <path>                                                            → ok p,p / <error>           (paths before resolution)
@@ -18,6 +19,7 @@
 -/
 import Tranp.Driver.Common
 import Tranp.Model.AstPath
+import Tranp.Model.NodesMemo
 
 namespace Tranp.Driver.Tree
 open Tranp Tranp.AstPath Tranp.Driver
@@ -71,7 +73,7 @@ def parseTable (spec fb : String) : Table :=
 structure St where
   w : World := default
   pf : List (Str × Entry) := []
-  insts : List (Str × Str) := []
+  ns : NState := {}
 
 instance : Inhabited World := ⟨⟨.empty, {}, {}⟩⟩
 
@@ -79,20 +81,30 @@ def digest (e : Entry) : String := s!"{l2s e.name}:{size e}:{Str.hex e.value}"
 
 def err (e : Err) : String := e.toString
 
-/-- resolve a list of paths to `path:Class`, threading the instance cache. -/
-def resolveAll (w : World) (insts : List (Str × Str)) (ps : List Str) : Except Err (List String × List (Str × Str)) :=
-  ps.foldlM (fun (acc : List String × List (Str × Str)) p => do
-    let (c, insts') ← nodeBy w acc.2 p
-    pure (acc.1 ++ [s!"{l2s p}:{l2s c}"], insts')) ([], insts)
+/-- one query on the modelled `Nodes` instance (instance cache + memo), formatted -/
+def query (st : St) (q : Query) (single : Bool) (classOnly : Bool := false) : St × String :=
+  let r := runQuery st.w st.ns q
+  let st' := { st with ns := r.1 }
+  match r.2 with
+  | .error er => (st', err er)
+  | .ok (.vals vs) => (st', "ok " ++ ",".intercalate (vs.map Str.hex))
+  | .ok (.nodes l) =>
+    if classOnly then
+      match l with
+      | [(_, c)] => (st', s!"ok {l2s c}")
+      | _ => (st', "bad-op")
+    else
+      let _ := single
+      (st', "ok " ++ ",".intercalate (l.map fun pc => s!"{l2s pc.1}:{l2s pc.2}"))
 
 def step (st : St) : List String → St × String
   | ["tree", sx] =>
     match parseSexp (sx.splitOn " ") with
     | some (e, []) =>
       let pf := fullPathfy e
-      ({ st with w := { st.w with root := e, cache := mkCache e }, pf := pf, insts := [] }, s!"ok {size e}")
+      ({ st with w := { st.w with root := e, cache := mkCache e }, pf := pf, ns := {} }, s!"ok {size e}")
     | _ => (st, "bad-op")
-  | ["table", spec, fb] => ({ st with w := { st.w with table := parseTable spec fb }, insts := [] }, "ok")
+  | ["table", spec, fb] => ({ st with w := { st.w with table := parseTable spec fb }, ns := {} }, "ok")
   | ["pathfy"] => (st, "|".intercalate (st.pf.map fun kv => s!"{l2s kv.1}:{digest kv.2}"))
   | ["pluck", p] =>
     let p := s2l p
@@ -105,26 +117,11 @@ def step (st : St) : List String → St × String
     | .error er => (st, err er)
   | ["id", p] => (st, toString (st.w.cache.indexOf (s2l p)))
   | ["exists", p] => (st, toString (st.w.cache.exists_ (s2l p)))
-  | ["children", p] =>
-    match (childrenPaths st.w (s2l p)).bind (resolveAll st.w st.insts) with
-    | .ok (out, insts) => ({ st with insts := insts }, "ok " ++ ",".intercalate out)
-    | .error er => (st, err er)
-  | ["siblings", p] =>
-    match (siblingsPaths st.w (s2l p)).bind (resolveAll st.w st.insts) with
-    | .ok (out, insts) => ({ st with insts := insts }, "ok " ++ ",".intercalate out)
-    | .error er => (st, err er)
-  | ["parent", p] =>
-    match (parentPath st.w (s2l p)).bind (fun q => resolveAll st.w st.insts [q]) with
-    | .ok (out, insts) => ({ st with insts := insts }, "ok " ++ ",".intercalate out)
-    | .error er => (st, err er)
-  | ["ancestor", p, tag] =>
-    match (ancestorPath st.w (s2l p) (s2l tag)).bind (fun q => resolveAll st.w st.insts [q]) with
-    | .ok (out, insts) => ({ st with insts := insts }, "ok " ++ ",".intercalate out)
-    | .error er => (st, err er)
-  | ["by", p] =>
-    match nodeBy st.w st.insts (s2l p) with
-    | .ok (c, insts) => ({ st with insts := insts }, s!"ok {l2s c}")
-    | .error er => (st, err er)
+  | ["children", p] => query st (.children (s2l p)) false
+  | ["siblings", p] => query st (.siblings (s2l p)) false
+  | ["parent", p] => query st (.parent (s2l p)) false
+  | ["ancestor", p, tag] => query st (.ancestor (s2l p) (s2l tag)) false
+  | ["by", p] => query st (.by_ (s2l p)) false true
   | ["classof", p] =>
     match (st.w.cache.by_ (s2l p)).bind (fun e => classOf st.w e.name (s2l p)) with
     | .ok c => (st, s!"ok {l2s c}")
@@ -145,18 +142,12 @@ def step (st : St) : List String → St × String
     match ancestorPath st.w (s2l p) (s2l tag) with
     | .ok q => (st, "ok " ++ l2s q)
     | .error er => (st, err er)
-  | ["expand", p] =>
-    match (expandPaths st.w (s2l p)).bind (resolveAll st.w st.insts) with
-    | .ok (out, insts) => ({ st with insts := insts }, "ok " ++ ",".intercalate out)
-    | .error er => (st, err er)
+  | ["expand", p] => query st (.expand (s2l p)) false
   | ["expandp", p] =>
     match expandPaths st.w (s2l p) with
     | .ok ps => (st, "ok " ++ ",".intercalate (ps.map l2s))
     | .error er => (st, err er)
-  | ["values", p] =>
-    match valuesOf st.w (s2l p) with
-    | .ok vs => (st, "ok " ++ ",".intercalate (vs.map Str.hex))
-    | .error er => (st, err er)
+  | ["values", p] => query st (.values (s2l p)) false
   | ["groupby", p, d] =>
     match d.toInt? with
     | none => (st, "bad-op")
@@ -171,7 +162,38 @@ def step (st : St) : List String → St × String
       let c := decide (expandOf st.w.table.canResolve 3 x q = expandFullOf st.w.table.canResolve x q)
       (st, s!"ok {b} {c}")
     | none => (st, "Errors.NodeNotFound")
-  | ["clear"] => ({ st with insts := [] }, "ok")
+  | ["ep.valid", p] => (st, toString (EP.valid (unhexD p)))
+  | ["ep.joined", p, r] => (st, Str.hex (EP.joined (unhexD p) (unhexD r)))
+  | ["ep.identify", p, t, i] =>
+    match i.toInt? with
+    | some k => (st, Str.hex (EP.identify (unhexD p) (unhexD t) k))
+    | none => (st, "bad-op")
+  | ["ep.first", p] =>
+    match EP.first (unhexD p) with
+    | .ok (t, i) => (st, s!"ok {Str.hex t} {i}")
+    | .error er => (st, err er)
+  | ["ep.last", p] =>
+    match EP.last (unhexD p) with
+    | .ok (t, i) => (st, s!"ok {Str.hex t} {i}")
+    | .error er => (st, err er)
+  | ["ep.shift", p, k] =>
+    match k.toInt? with
+    | some k => (st, Str.hex (EP.shift (unhexD p) k))
+    | none => (st, "bad-op")
+  | ["ep.parenttag", p] =>
+    match EP.parentTag (unhexD p) with
+    | .ok t => (st, s!"ok {Str.hex t}")
+    | .error er => (st, err er)
+  | ["ep.deidentify", p] => (st, Str.hex (EP.deIdentify (unhexD p)))
+  | ["ep.elements", p] => (st, ",".intercalate ((dsnElements (unhexD p)).map Str.hex))
+  | ["ep.contains", p, t] => (st, toString (EP.contains (unhexD p) (unhexD t)))
+  | ["ep.only", p, ts] => (st, toString (EP.consistsOfOnly (unhexD p) ((ts.splitOn ",").map unhexD)))
+  | ["ep.escaped", p] => (st, Str.hex (EP.escaped (unhexD p)))
+  | ["ep.relativefy", p, q] =>
+    match EP.relativefy (unhexD p) (unhexD q) with
+    | .ok r => (st, s!"ok {Str.hex r}")
+    | .error er => (st, err er)
+  | ["clear"] => ({ st with ns := {} }, "ok")
   | _ => (st, "bad-op")
 
 def run : IO Unit := runFamily step ({} : St)
